@@ -349,6 +349,28 @@ def run_foreign(seed):
         if [g.name for g in got] != [w.name for w in want]:
             bad.append(('get_variables_by_rdf(note, %r) returns %s, the variables carrying exactly that object are %s'
                         % (arg, [g.name for g in got], [w.name for w in want]), info))
+    # typed literals that compare equal in Python (True == 1 == 1.0) are different RDF objects; a literal that LOOKS like a URI
+    # is a literal; look-ups in every order find exactly the carrier
+    P3 = rdflib.URIRef('http://example.org/ns#level')
+    typed = [(rdflib.Literal(True), True), (rdflib.Literal(1.0), 1.0), (rdflib.Literal(1), 1),
+             (rdflib.Literal('http://data.example.org/traces/ik1.csv'), 'http://data.example.org/traces/ik1.csv')]
+    tcar = {}
+    for k_, (obj, _) in enumerate(typed):
+        tv = m.add_variable('typed%d' % k_, 'dimensionless', cmeta_id='typed%d_id' % k_)
+        m.rdf.add((tv.rdf_identity, P3, obj))
+        tcar[k_] = tv
+    order = list(range(len(typed)))
+    rng.shuffle(order)
+    for k_ in order + order[::-1]:
+        try:
+            got = m.get_variables_by_rdf(('http://example.org/ns#', 'level'), typed[k_][1])
+        except Exception as e:
+            bad.append(('get_variables_by_rdf(level, %r) raises %r' % (typed[k_][1], e), info))
+            continue
+        if [g.name for g in got] != [tcar[k_].name]:
+            bad.append(('get_variables_by_rdf(level, %r) returns %s, the annotation %r is carried by %s alone'
+                        % (typed[k_][1], [g.name for g in got], typed[k_][0], tcar[k_].name), info))
+            break
     # the local annotations are still found
     for k, v in local_terms.items():
         try:
